@@ -71,6 +71,17 @@ class SlottedCallable(Slotted):
     __slots__ = ()
     def __call__(self, x):
         return ("called", self.a, x)
+plain.__vf_meta__ = ("meta", "plain")
+clo.__vf_meta__ = ("meta", "clo")
+Plain.__vf_meta__ = ("meta", "Plain")
+class Sized:
+    __vf_meta__ = ("meta", "Sized")
+    def __init__(self, n=3):
+        self.a = n
+    def __len__(self):
+        return self.a
+    def m(self, z):
+        return ("m", self.a, z)
 def make_counter():
     n = 0
     def counter(step=0):
@@ -112,9 +123,11 @@ def probes_for(kind):
 
 FUNCS = ["plain", "lam", "clo", "nst", "rec", "par"]
 INSTANCES = [("Plain", (), {}), ("Arg1", (4,), {}), ("ArgKw", (4,), {"k": 6}),
-             ("Callable_", (3,), {}), ("CallableChild", (), {}), ("Slotted", (6,), {}),
+             ("Callable_", (3,), {}), ("CallableChild", (), {}), ("Sized", (4,), {}), ("Slotted", (6,), {}),
              ("SlottedCallable", (7,), {})]
-ATTRS = ["tag", "v", "a", "k", "prop"]
+ATTRS = ["tag", "v", "a", "k", "prop",
+         # double-underscore names are ordinary attribute reads too (function metadata, user data)
+         "__name__", "__qualname__", "__defaults__", "__vf_meta__"]
 
 
 def behaviour(obj, kind):
@@ -137,6 +150,12 @@ def behaviour(obj, kind):
         except BaseException as e:
             at[a] = ("exc", type(e).__name__)
     out["attrs"] = at
+    try:
+        out["len"] = ("ok", obj.__len__())          # an explicitly fetched special method
+    except AttributeError:
+        out["len"] = ("noattr",)
+    except BaseException as e:
+        out["len"] = ("exc", type(e).__name__)
     try:
         out["m"] = ("ok", obj.m(8))
     except AttributeError:
